@@ -20,6 +20,7 @@ STATUS_WRITERS = {
     OD + "::mark_reverted": {"Reverted"},
     UPD + "cancel_tx_and_outputs": {"Unspent"},
     c.LW + "internal::scan::scan": {"Unspent"},
+    c.LW + "internal::scan::cancel_tx_log_entry": {"Unspent"},  # releases what the entry it cancels still has locked (same batch)
 }
 LOCKERS = {
     SEL + "lock_tx_context": "the reservation step of every send / invoice payment",
